@@ -197,10 +197,24 @@ def export():
             rows.append((sid, (meta.get('needs_to_manifest') or '')[:140].replace('\n', ' ').replace('|', '/'),
                          p, 'caught (exit %s)%s' % (v['exit_code'], '' if v['with_failing_input'] else ', no-failing-input-found')
                          if v['exit_code'] == 1 else 'MISSED'))
-    print('| seed | needs, to manifest | check | result |')
-    print('|---|---|---|---|')
+    lines = ['| seed | what it needs in order to manifest | check run | result |', '|---|---|---|---|']
     for row in rows:
-        print('| %s | %s | %s | %s |' % row)
+        lines.append('| %s | %s | %s | %s |' % row)
+    caught = sum(1 for r in rows if r[3].startswith('caught'))
+    nfi = sum(1 for r in rows if 'no-failing-input-found' in r[3])
+    lines.append('')
+    lines.append('%d seeded changes, %d caught by the quick check of their property (%d of them only through a broken proof '
+                 'obligation or correspondence, `no-failing-input-found`), %d missed. /repo at %s.' % (len(rows), caught, nfi, len(rows) - caught, head))
+    table = '\n'.join(lines)
+    open(os.path.join(out_root, 'RESULTS.md'), 'w').write('# Seeded changes and the checks run against them\n\n' + table + '\n')
+    d = open('/verif/DESIGN.md').read()
+    a, b = '<!-- SEEDTABLE -->', '<!-- /SEEDTABLE -->'
+    if '@SEEDTABLE@' in d:
+        d = d.replace('@SEEDTABLE@', a + '\n' + table + '\n' + b)
+    elif a in d:
+        d = d[:d.index(a)] + a + '\n' + table + '\n' + d[d.index(b):]
+    open('/verif/DESIGN.md', 'w').write(d)
+    print(table)
 
 
 if __name__ == '__main__' and sys.argv[1] == 'export':
